@@ -216,6 +216,112 @@ def case_available(log, qed):
 
 
 # ---------------------------------------------------------------------------
+# state carried between calls: every ordered pair of (nf, qed, sector) computed one after the other in ONE process
+# ---------------------------------------------------------------------------
+def _nodes():
+    return [(nf, qed, lab) for qed in (False, True) for nf in (3, 4, 5, 6) for lab in M.sector_labels(qed)]
+
+
+def _sequence(n):
+    """i, 0, i, 1, ..., i, n-1 for every i: every ordered pair (p, q), p == q included, occurs as two consecutive calls"""
+    for i in range(n):
+        for j in range(n):
+            yield i
+            yield j
+
+
+def _snapshot(br):
+    import copy
+
+    names = ("rotate_flavor_to_evolution", "rotate_flavor_to_unified_evolution", "map_ad_to_evolution", "map_ad_to_unified_evolution", "flavor_basis_pids",
+             "evol_basis", "unified_evol_basis", "evol_basis_pids", "unified_evol_basis_pids", "full_labels", "full_unified_labels", "non_singlet_pids_map")
+    return {n: copy.deepcopy(getattr(br, n)) for n in names}
+
+
+def _same(a, b):
+    import numpy as np
+
+    if isinstance(a, np.ndarray) or isinstance(b, np.ndarray):
+        return np.array_equal(np.asarray(a), np.asarray(b))
+    return a == b
+
+
+def _call_sequence(br, nodes, upto=None):
+    """Run the call sequence on the module `br`.  Returns {node index: {result key: (first call index, matrix | exception)}}."""
+    import warnings
+    import numpy as np
+
+    seen = {}
+    with warnings.catch_warnings():
+        warnings.simplefilter("ignore")
+        for k, idx in enumerate(_sequence(len(nodes))):
+            nf, qed, lab = nodes[idx]
+            try:
+                P = np.asarray(br.ad_projector(lab, nf, qed), dtype=float)
+                key = P.tobytes()
+            except Exception as e:  # noqa
+                P, key = e, ("exc", type(e).__name__, str(e))
+            d = seen.setdefault(idx, {})
+            if key not in d:
+                d[key] = (k, P)
+            if upto is not None and k >= upto:
+                break
+    return seen
+
+
+def case_sequence(log):
+    """All 124 (nf, qed, sector) projectors are requested one after the other in this worker process such that every ordered
+    pair occurs as two consecutive calls (30752 calls).  Every DISTINCT matrix that a (nf, qed, sector) ever returned in that
+    history must be the documented sector map (for a symbolic row vector); the module-level tables must be unchanged afterwards.
+    The replay re-runs the same call sequence up to the offending call on the real module in a clean interpreter."""
+    br = _br()
+    log.encode(br.ad_projector, br.select_light_flavors_uni_ev)
+    nodes = _nodes()
+    before = _snapshot(br)
+    seen = _call_sequence(br, nodes)
+    after = _snapshot(br)
+    ncalls = 2 * len(nodes) ** 2
+
+    def run_tables():
+        changed = [n for n in before if not _same(before[n], after[n])]
+        what = "module-level tables of eko.basis_rotation are unchanged after the %d ad_projector calls" % ncalls
+        if changed:
+            log.decide(failed(what + ": changed %r" % changed), key="ad_projector:mutates-tables", replay=(MOD, "replay_sequence", {"tables": True}), candidates=[{}])
+        else:
+            log.ok(prove_formula(z3.BoolVal(True), what), {"nontrivial": False})
+
+    _r, pm = explore(run_tables)
+    log.path_stats(pm)
+    for idx, (nf, qed, lab) in enumerate(nodes):
+        labs = M.basis(nf, qed)
+        Rb = {l: M.row(l, nf, qed) for l in labs}
+        els = M.sector_elements(lab, nf, qed)
+
+        def run(idx=idx, nf=nf, qed=qed, lab=lab, labs=labs, Rb=Rb, els=els):
+            c = dict(zip(labs, symvec("c", labs)))
+            box(c.values())
+            f = [lin([Rb[l][i] for l in labs], [c[l] for l in labs]) for i in range(14)]
+            want = [sum((c[a] * Rb[b][i] for a, b in els), SR(0)) for i in range(14)]
+            for _key, (k, P) in sorted(seen[idx].items(), key=lambda t: t[1][0]):
+                kw = {"upto": k, "node": idx}
+                what = "ad_projector(%r, nf=%d, %s) as returned at call %d of the in-process sequence (%d distinct results in %d calls)" % (lab, nf, _tag(qed), k, len(seen[idx]), ncalls)
+                if isinstance(P, Exception):
+                    _decide(log, failed(what + " raised %s: %s" % (type(P).__name__, P)), key="ad_projector[%s]:history" % _tag(qed), replay=(MOD, "replay_sequence", kw), candidates=[{}])
+                    continue
+                try:
+                    img = _vecmat(f, _matrix(P))
+                except NonFinite:
+                    _decide(log, failed(what + " contains nan/inf"), key="ad_projector[%s]:history" % _tag(qed), replay=(MOD, "replay_sequence", kw), candidates=[{}])
+                    continue
+                v = prove_small([img[i] - want[i] for i in range(14)], what + ": f @ P == sum c_A r_B over %s for every f" % (["%s.%s" % e for e in els] or "no element"))
+                _decide(log, v, key="ad_projector[%s]:history" % _tag(qed), replay=(MOD, "replay_sequence", kw), sampler=_sampler_c(labs))
+            log.twin("domain")
+
+        _r, pm = explore(run)
+        log.path_stats(pm)
+
+
+# ---------------------------------------------------------------------------
 # sector maps
 # ---------------------------------------------------------------------------
 def case_projectors(log, nf, qed, deep=False):
@@ -418,6 +524,48 @@ def replay_collection(point, qed, nfs):
     return None
 
 
+def replay_sequence(point, upto=None, node=None, tables=False):
+    """the same call sequence as in the harness worker, on the real module in this clean interpreter"""
+    import numpy as np
+
+    M.light_eko()
+    import eko.basis_rotation as br
+
+    nodes = _nodes()
+    if tables:
+        _call_sequence(br, nodes)
+        bad = []
+        for qed in (False, True):
+            tab = np.asarray(br.rotate_flavor_to_unified_evolution if qed else br.rotate_flavor_to_evolution, dtype=float)
+            labels = list(br.unified_evol_basis if qed else br.evol_basis)
+            for i, l in enumerate(labels):
+                if _far(tab[i], [float(x) for x in M.row(l, 6, qed)]):
+                    bad.append("row %s of the %s rotation table is now %r" % (l, _tag(qed), tab[i].tolist()))
+            bad += [w for w, ok in _table_facts(br, qed) if not ok]
+        return {"detail": "after %d ad_projector calls the module-level tables of eko.basis_rotation have changed: %s" % (2 * len(nodes) ** 2, "; ".join(bad[:4]))} if bad else None
+    seen = _call_sequence(br, nodes, upto=upto)
+    nf, qed, lab = nodes[node]
+    hit = [P for (k, P) in seen.get(node, {}).values() if k == upto]
+    if not hit:
+        return None  # the call at index `upto` returned a result already seen earlier: not the reported one
+    P = hit[0]
+    seq = list(_sequence(len(nodes)))[: upto + 1]
+    prev = nodes[seq[-2]] if len(seq) > 1 else None
+    where = "call %d of one process (the preceding call was ad_projector%r; first calls: %r)" % (
+        upto, (prev[2], prev[0], prev[1]) if prev else None, [(nodes[i][2], nodes[i][0], nodes[i][1]) for i in seq[:3]])
+    if isinstance(P, Exception):
+        return {"detail": "ad_projector(%r, nf=%d, qed=%s) at %s raises %s: %s" % (lab, nf, qed, where, type(P).__name__, P)}
+    labs, Rb, cv, f = _setup(point, nf, qed)
+    want = np.zeros(14)
+    for a, b in M.sector_elements(lab, nf, qed):
+        want = want + cv[a] * Rb[b]
+    got = f @ P
+    if _far(got, want):
+        return {"detail": "ad_projector(%r, nf=%d, qed=%s) at %s: for f = sum c_X r_X with c = %r, f @ P = %r but the sector map must give %r"
+                          % (lab, nf, qed, where, {k: v for k, v in cv.items() if v}, got.tolist(), want.tolist())}
+    return None
+
+
 def replay_tables(point, qed, row=None, inv=False, orth=False, fact=None):
     import numpy as np
     M.light_eko()
@@ -452,8 +600,11 @@ def main():
     chk.exhaustive = True
     chk.bounds = ["nf in {3,4,5,6} x {QCD, QED} enumerated (exhaustive); every sector label of the basis (7 QCD, 24 unified) enumerated",
                   "rotated / projected vector: 14 real symbols (coordinates over the intrinsic evolution basis incl. photon and heavy q+-), |c| <= 1 (goals are linear)",
+                  "state carried between calls: one call sequence over all 124 (nf, qed, sector) in which every ordered pair occurs consecutively (30752 calls in one process); "
+                  "every distinct matrix returned along it is decided symbolically, the module tables are compared before/after",
                   "float entries of the projectors read as exact rationals; goals with non-dyadic weights hold within 1e-12, integer tables exactly"]
-    chk.out_of_claim = ["floating-point rounding of ad_projector beyond 1e-12", "nf outside 3..6"]
+    chk.out_of_claim = ["floating-point rounding of ad_projector beyond 1e-12", "nf outside 3..6",
+                        "call histories other than the pair-covering sequence (e.g. state that needs three specific calls in a row), calls of other module functions in between"]
     chk.stubs = []
     chk.assumptions = ["harness/flavour_model.py transcribes doc/source/theory/FlavorSpace.rst correctly (trusted base)",
                        "sector maps act on row vectors: for an element 'A.B' the distribution A is sent to B (tests/eko/test_basis_rotation.py)"]
@@ -464,6 +615,7 @@ def main():
         chk.case("available.%s" % _tag(qed), case_available, qed=qed)
         for nf in (3, 4, 5, 6):
             chk.case("projectors.%s.nf%d" % (_tag(qed), nf), case_projectors, nf=nf, qed=qed, deep=deep)
+    chk.case("sequence", case_sequence)
     return chk.run()
 
 
